@@ -194,19 +194,50 @@ theorem classDeclared_imp_definedIn (env : Env) (p c : String) (h : classDeclare
 
 /-! ### association lists -/
 
-theorem lookup_filter_key (p : String → Bool) (k : String) (hk : p k = true) (l : List (String × J)) :
-    J.lookup k (l.filter (fun kv => p kv.1)) = J.lookup k l := by
+theorem lookup_filter_key (p : String → Bool) (k : String) (hk : p k = true) (l : List (String × TV)) :
+    TV.lookup k (l.filter (fun kv => p kv.1)) = TV.lookup k l := by
   induction l with
-  | nil => simp [J.lookup]
+  | nil => simp [TV.lookup]
   | cons kv rest ih =>
     obtain ⟨k', v⟩ := kv
     by_cases hp : p k' = true
-    · simp [List.filter, hp, J.lookup, ih]
+    · simp [List.filter, hp, TV.lookup, ih]
     · have hne : k' ≠ k := by
         intro heq; rw [heq] at hp; exact hp hk
-      simp [List.filter, hp, J.lookup, hne, ih]
+      simp [List.filter, hp, TV.lookup, hne, ih]
 
-theorem filter_dictSet (p : String → Bool) (k : String) (v : J) (hk : p k = true) (l : Dict) :
+theorem lookup_filter_some (p : String → Bool) (k : String) (v : TV) (l : List (String × TV))
+    (h : TV.lookup k (l.filter (fun kv => p kv.1)) = some v) : TV.lookup k l = some v := by
+  induction l with
+  | nil => simp [TV.lookup] at h
+  | cons kv rest ih =>
+    obtain ⟨k', v'⟩ := kv
+    by_cases hp : p k' = true
+    · simp only [List.filter, hp, TV.lookup] at h ⊢
+      by_cases hk : k' = k
+      · simp [hk] at h ⊢; exact h
+      · simp [hk] at h ⊢; exact ih h
+    · simp only [List.filter, hp] at h
+      have := ih h
+      by_cases hk : k' = k
+      · subst hk
+        -- the key was filtered out, so it cannot be found in the filtered list
+        exfalso
+        have hnone : TV.lookup k' (rest.filter (fun kv => p kv.1)) = none := by
+          clear ih h this
+          induction rest with
+          | nil => simp [TV.lookup]
+          | cons kv2 r2 ih2 =>
+            obtain ⟨k2, v2⟩ := kv2
+            by_cases hp2 : p k2 = true
+            · have hne : k2 ≠ k' := by intro he; rw [he] at hp2; exact hp hp2
+              simp [List.filter, hp2, TV.lookup, hne, ih2]
+            · simp [List.filter, hp2, ih2]
+        rw [hnone] at h
+        cases h
+      · simp [TV.lookup, hk, this]
+
+theorem filter_dictSet (p : String → Bool) (k : String) (v : TV) (hk : p k = true) (l : Dict) :
     (dictSet k v l).filter (fun kv => p kv.1) = dictSet k v (l.filter (fun kv => p kv.1)) := by
   induction l with
   | nil => simp [dictSet, hk]
@@ -220,5 +251,215 @@ theorem filter_dictSet (p : String → Bool) (k : String) (v : J) (hk : p k = tr
       by_cases hp : p k' = true
       · simp [dictSet, he, List.filter, hp, ih, hne]
       · simp [dictSet, he, List.filter, hp, ih, hne]
+
+theorem lookup_dictSet_ne (k k' : String) (v : TV) (l : Dict) (h : k ≠ k') :
+    TV.lookup k (dictSet k' v l) = TV.lookup k l := by
+  induction l with
+  | nil => simp [dictSet, TV.lookup, h.symm]
+  | cons kv rest ih =>
+    obtain ⟨k2, v2⟩ := kv
+    by_cases he : (k2 == k') = true
+    · have : k2 = k' := by simpa using he
+      subst this
+      simp [dictSet, TV.lookup, h.symm]
+    · have hne : k2 ≠ k' := by simpa using he
+      by_cases hk : k2 = k
+      · subst hk
+        simp [dictSet, TV.lookup, h]
+      · simp [dictSet, he, TV.lookup, hk, ih, hne]
+
+theorem lookup_dictSet_eq (k : String) (v : TV) (l : Dict) : TV.lookup k (dictSet k v l) = some v := by
+  induction l with
+  | nil => simp [dictSet, TV.lookup]
+  | cons kv rest ih =>
+    obtain ⟨k2, v2⟩ := kv
+    by_cases he : (k2 == k) = true
+    · simp [dictSet, he, TV.lookup]
+    · have hne : k2 ≠ k := by simpa using he
+      simp [dictSet, he, TV.lookup, hne, ih]
+
+/-! ### the checks on values of unknown kind -/
+
+/-- `v` is a `str` naming a path with the property `test` -/
+def IsPath (test : String → Bool) (v : TV) : Prop := ∃ p, v = .str p ∧ test p = true
+
+/-- `v` is a `str` that can be used as a Python identifier / module name -/
+def IsName (env : Env) (v : TV) : Prop := ∃ n, v = .str n ∧ validName env n = true
+
+/-- `v` is a table of `str` values each of which can be resolved -/
+def HeadersOk (env : Env) (v : TV) : Prop :=
+  ∃ kvs, v = .table kvs ∧ ∀ kv ∈ kvs, ∃ h, kv.2 = .str h ∧ HeaderResolvable env h
+
+/-- everything Python iterates over in `v` is a `str` naming a file -/
+def FilesOk (env : Env) (v : TV) : Prop := ∃ items, v.pyIter = some items ∧ ∀ f ∈ items, IsPath env.isFile f
+
+theorem pathCheck_some_iff (missing : List String) (test : String → Bool) (err : String → ConfigError) (v : TV) :
+    (∃ e, pathCheck missing test err v = some e) ↔ ¬ IsPath test v := by
+  unfold IsPath
+  cases v <;> simp [pathCheck]
+
+theorem pathCheck_eq (missing : List String) (test : String → Bool) (err : String → ConfigError) (v : TV) (e : ConfigError)
+    (h : pathCheck missing test err v = some e) :
+    (∃ p, v = .str p ∧ test p = false ∧ e = err p) ∨ (v.isStr = false ∧ e = .typeErrorAsMissing missing) := by
+  cases v <;> simp [pathCheck, TV.isStr] at h ⊢ <;> try exact h.symm
+  case str p =>
+    cases ht : test p <;> simp [ht] at h
+    exact ⟨rfl, h.symm⟩
+
+theorem identCheckV_some_iff (env : Env) (v : TV) : (∃ e, identCheckV env v = some e) ↔ ¬ IsName env v := by
+  unfold IsName
+  cases v <;> simp [identCheckV]
+  case str n => unfold identCheck; cases validName env n <;> simp
+
+theorem identCheckV_eq (env : Env) (v : TV) (e : ConfigError) (h : identCheckV env v = some e) :
+    (∃ n, v = .str n ∧ e = .badIdentifier n) ∨ (v.isStr = false ∧ e = .internal "AttributeError") := by
+  cases v <;> simp [identCheckV, TV.isStr] at h ⊢ <;> try exact h.symm
+  case str n =>
+    unfold identCheck at h
+    split at h <;> simp_all
+
+theorem headerValueV_ok_iff (env : Env) (v : TV) :
+    (∃ r, headerValueV env v = .ok r) ↔ ∃ h, v = .str h ∧ HeaderResolvable env h := by
+  cases v <;> simp [headerValueV]
+  case str s =>
+    rw [← headerValue_ok_iff]
+    cases headerValue env s <;> simp
+
+theorem resolveHeadersKvs_ok_iff (env : Env) (kvs : List (String × TV)) :
+    (∃ r, resolveHeadersKvs env kvs = .ok r) ↔ ∀ kv ∈ kvs, ∃ h, kv.2 = .str h ∧ HeaderResolvable env h := by
+  induction kvs with
+  | nil => simp [resolveHeadersKvs]
+  | cons kv rest ih =>
+    obtain ⟨k, v⟩ := kv
+    simp only [resolveHeadersKvs, List.mem_cons, forall_eq_or_imp]
+    cases hv : headerValueV env v with
+    | error e =>
+      have hn : ¬ ∃ h, v = .str h ∧ HeaderResolvable env h := by
+        intro hr
+        obtain ⟨r, hr'⟩ := (headerValueV_ok_iff env v).mpr hr
+        rw [hv] at hr'; cases hr'
+      constructor
+      · rintro ⟨r, hr'⟩; cases hr'
+      · rintro ⟨h1, _⟩; exact absurd h1 hn
+    | ok v' =>
+      have hres := (headerValueV_ok_iff env v).mp ⟨v', hv⟩
+      cases hr : resolveHeadersKvs env rest with
+      | error e =>
+        have hn : ¬ ∀ kv ∈ rest, ∃ h, kv.2 = .str h ∧ HeaderResolvable env h := by
+          intro hall
+          obtain ⟨r, hr'⟩ := ih.mpr hall
+          rw [hr] at hr'; cases hr'
+        constructor
+        · rintro ⟨r, hr'⟩; cases hr'
+        · rintro ⟨_, hall⟩; exact absurd hall hn
+      | ok rest' =>
+        have hall := ih.mp ⟨rest', hr⟩
+        constructor
+        · intro _; exact ⟨hres, hall⟩
+        · intro _; exact ⟨_, rfl⟩
+
+theorem firstBadHeaderV_none_iff (env : Env) (v : TV) : firstBadHeaderV env v = none ↔ HeadersOk env v := by
+  unfold firstBadHeaderV HeadersOk
+  cases v <;> simp only [resolveHeadersV] <;> try (simp; done)
+  case table kvs =>
+    have key := resolveHeadersKvs_ok_iff env kvs
+    cases hr : resolveHeadersKvs env kvs with
+    | ok r =>
+      have hall := key.mp ⟨r, hr⟩
+      simp only [true_iff]
+      exact ⟨kvs, rfl, hall⟩
+    | error e =>
+      simp only [reduceCtorEq, false_iff]
+      rintro ⟨kvs', hk, hall⟩
+      injection hk with hk
+      subst hk
+      obtain ⟨r, hr'⟩ := key.mpr hall
+      rw [hr] at hr'
+      cases hr'
+
+theorem headerValueV_error (env : Env) (v : TV) (e : ConfigError) (h : headerValueV env v = .error e) :
+    (∃ s, v = .str s ∧ e = .envVarMissing (lstripDollar s)) ∨ (v.isStr = false ∧ e = .internal "AttributeError") := by
+  cases v <;> simp [headerValueV, TV.isStr] at h ⊢ <;> try exact h.symm
+  case str s =>
+    cases hs : headerValue env s with
+    | ok r => simp [hs] at h
+    | error e' =>
+      simp [hs] at h
+      rw [← h]
+      exact headerValue_error env s e' hs
+
+/-- what a failing header resolution raises: the missing variable of some `str` value, or
+    `AttributeError` for a value that is not a `str` -/
+def HeaderErrorOf (kvs : List (String × TV)) (e : ConfigError) : Prop :=
+  ∃ kv ∈ kvs, (∃ s, kv.2 = .str s ∧ e = .envVarMissing (lstripDollar s)) ∨ (kv.2.isStr = false ∧ e = .internal "AttributeError")
+
+theorem resolveHeadersKvs_error (env : Env) (kvs : List (String × TV)) (e : ConfigError)
+    (h : resolveHeadersKvs env kvs = .error e) : HeaderErrorOf kvs e := by
+  induction kvs with
+  | nil => simp [resolveHeadersKvs] at h
+  | cons kv rest ih =>
+    obtain ⟨k, v⟩ := kv
+    simp only [resolveHeadersKvs] at h
+    cases hv : headerValueV env v with
+    | error e' =>
+      simp only [hv] at h
+      injection h with h
+      subst h
+      exact ⟨(k, v), by simp, headerValueV_error env v e' hv⟩
+    | ok v' =>
+      simp only [hv] at h
+      cases hr : resolveHeadersKvs env rest with
+      | error e' =>
+        simp only [hr] at h
+        injection h with h
+        subst h
+        obtain ⟨kv, hm, he⟩ := ih hr
+        exact ⟨kv, by simp [hm], he⟩
+      | ok r => simp [hr] at h
+
+theorem firstBadHeaderV_some (env : Env) (v : TV) (e : ConfigError) (h : firstBadHeaderV env v = some e) :
+    (∃ kvs, v = .table kvs ∧ HeaderErrorOf kvs e) ∨ (v.isTable = false ∧ e = .internal "AttributeError") := by
+  unfold firstBadHeaderV at h
+  cases v <;> simp [resolveHeadersV, TV.isTable] at h ⊢ <;> try exact h.symm
+  case table kvs =>
+    cases hr : resolveHeadersKvs env kvs with
+    | ok r => simp [hr] at h
+    | error e' =>
+      simp [hr] at h
+      subst h
+      exact resolveHeadersKvs_error env kvs e' hr
+
+theorem firstNonFileV_none_iff (env : Env) (missing : List String) (fs : List TV) :
+    firstNonFileV env missing fs = none ↔ ∀ f ∈ fs, IsPath env.isFile f := by
+  induction fs with
+  | nil => simp [firstNonFileV]
+  | cons f fs ih =>
+    cases f <;> simp [firstNonFileV, IsPath]
+    case str p =>
+      by_cases h : env.isFile p = true
+      · simp [h, ih, IsPath]
+      · simp [h]
+
+/-- what the loop over `files_to_include` raises -/
+def FileErrorOf (env : Env) (missing : List String) (items : List TV) (e : ConfigError) : Prop :=
+  ∃ f ∈ items, (∃ p, f = .str p ∧ env.isFile p = false ∧ e = .notFile p) ∨ (f.isStr = false ∧ e = .typeErrorAsMissing missing)
+
+theorem firstNonFileV_some (env : Env) (missing : List String) (fs : List TV) (e : ConfigError)
+    (h : firstNonFileV env missing fs = some e) : FileErrorOf env missing fs e := by
+  induction fs with
+  | nil => simp [firstNonFileV] at h
+  | cons f fs ih =>
+    cases f
+    case str p =>
+      by_cases hf : env.isFile p = true
+      · simp only [firstNonFileV, hf, if_true] at h
+        obtain ⟨g, hg, hh⟩ := ih h
+        exact ⟨g, by simp [hg], hh⟩
+      · simp only [firstNonFileV, hf] at h
+        simp at h
+        exact ⟨.str p, by simp, Or.inl ⟨p, rfl, by simpa using hf, h.symm⟩⟩
+    all_goals
+      simp only [firstNonFileV, Option.some.injEq] at h
+      exact ⟨_, List.mem_cons_self, Or.inr ⟨by simp [TV.isStr], h.symm⟩⟩
 
 end Ariadne.Settings
